@@ -122,7 +122,7 @@ Proof.
   - apply NE_bind; [apply NE_modify|intro; exact IH].
 Qed.
 Lemma NE_define_segment sp l : NE (define_segment sp l).
-Proof. unfold define_segment. destruct (validate_segment sp l) eqn:V; [|intros c0 d0 H; unfold fail in H; inversion H]. ne2. Qed.
+Proof. unfold define_segment. destruct (validate_segment sp l) eqn:V; [|intros c0 d0 H; unfold fail in H; inversion H]. ne2. unfold install_checked. ne2. Qed.
 
 Ltac ne3 :=
   repeat match goal with
